@@ -30,8 +30,8 @@ def confirm(src, name, props):
         cfg = ("cmake -G Ninja -S . -B _build -DFETCHCONTENT_SOURCE_DIR_GTEST=/usr/src/googletest -DST_BUILD_TESTS=ON "
                "-DCMAKE_BUILD_TYPE=RelWithDebInfo -DCMAKE_CXX_FLAGS=-Wno-error >/dev/null 2>&1 && cmake --build _build >/dev/null 2>&1")
         demo = "g++ -std=c++20 -O1 -g %s -I_build/include -Iinclude %s -o demo_bin 2>&1 | tail -5"
-        san = "-fsanitize=address,undefined" if meta.get("sanitize") or "sanitiz" in json.dumps(meta) else ""
         extra = meta.get("demo_flags", "")
+        san = "-fsanitize=address,undefined" if (meta.get("sanitize") or "sanitiz" in json.dumps(meta)) and "sanitize" not in extra else ""
         # unchanged tree
         r = sh(cfg, cwd=wt);
         if r.returncode: print("baseline build failed"); return 2
